@@ -1,4 +1,5 @@
 SPECIFICATION Spec
 INVARIANT Contract
+INVARIANT ContractList
 INVARIANT Design
 CHECK_DEADLOCK FALSE
